@@ -766,6 +766,12 @@ def run(chk):
     rule_order(chk, prog)
     rule_stable_sort(chk, prog)
     rule_export(chk, prog)
+    # "none of these changes the contents read back": whatever a per-file flag does in the block writer, every block
+    # that is written stays on its record (the truncation after a duplicate run knows nothing else) -- K11-logged of C08
+    from .c08 import rule_j_logged, rule_g_truncate
+    rule_j_logged(chk, prog)
+    rule_g_truncate(chk, prog)
+    chk.floor("K11-logged", 1)
     chk.floor("K1-action", 5)
     chk.floor("K13-keyword", 4)
     chk.floor("K13-transport", 7)
